@@ -12,7 +12,7 @@
     The slots of the collector are a numpy array of [saveStep] columns; they are modelled as a function
     of the column index.  Every index used by the driver is below [saveStep] ([k mod S], [range(.., min(S, ..))],
     [range(ti mod S)]), so no access is out of range. *)
-From Coq Require Import List Arith Lia PeanoNat Bool.
+From Coq Require Import List Arith Lia PeanoNat Bool Permutation.
 Import ListNotations.
 
 Section Driver.
@@ -486,6 +486,124 @@ Proof.
   destruct (ck_sim_final _ _ SIM2) as [X' [Y' [B1 [B2 [B3 B4]]]]].
   rewrite E1. rewrite B1, B2, B3, B4, A1, A2, A3, A4.
   cbn [ck_resume ck_files ck_lines]. rewrite !app_nil_l, !app_assoc. split; reflexivity.
+Qed.
+
+(** ** the rows of an uninterrupted run that ends on a save step: every time once *)
+Definition ck_L (f0 : F) (k : nat) : ck_line := Some (k, diag (ck_pow k f0)).
+
+(** rows printed at the save step (w+1)*S: slot 0 holds that very time, slots 1..S-1 the times before *)
+Definition ck_window (f0 : F) (w : nat) : list ck_line :=
+  ck_L f0 (w * S + S) :: map (fun i => ck_L f0 (w * S + i)) (seq 1 (S - 1)).
+
+Definition ck_rows_spec (f0 : F) (q : nat) : list ck_line := ck_L f0 0 :: flat_map (ck_window f0) (seq 0 q).
+
+Lemma ck_steps_succ j st : ck_steps (j + 1) st = ck_iter (ck_steps j st).
+Proof. rewrite ck_steps_add. reflexivity. Qed.
+
+Lemma ck_pow_succ j f : ck_pow (j + 1) f = step (ck_pow j f).
+Proof. rewrite ck_pow_add. reflexivity. Qed.
+
+Lemma ck_mod_in_window w j : j < S -> (w * S + j) mod S = j.
+Proof. intros H. rewrite Nat.add_comm, Nat.mod_add by lia. apply Nat.mod_small. exact H. Qed.
+
+(** inside a save window nothing is written and the slots 1..j receive the times of the window *)
+Lemma ck_window_prefix w st j : ck_ti st = w * S -> j <= S - 1 ->
+  let st' := ck_steps j st in
+  ck_files st' = ck_files st /\ ck_lines st' = ck_lines st /\ ck_sp st' = ck_sp st /\
+  forall i, 1 <= i <= j -> ck_slots st' i = Some (w * S + i, diag (ck_pow i (ck_fld st))).
+Proof.
+  intros Hti. induction j as [|j IH]; intros Hj; cbv zeta.
+  - cbn [ck_steps]. repeat split; try reflexivity. intros i Hi. lia.
+  - replace (Datatypes.S j) with (j + 1) by lia. rewrite ck_steps_succ.
+    destruct (IH ltac:(lia)) as [I1 [I2 [I3 I4]]].
+    pose proof (ck_steps_ti j st) as T. pose proof (ck_steps_fld j st) as Fd. rewrite Hti in T.
+    unfold ck_iter. rewrite T, ck_mod_in_window by lia.
+    destruct (Nat.eqb_spec j (S - 1)) as [E|NE]; [lia|].
+    cbn [ck_files ck_lines ck_sp ck_slots]. repeat split; try assumption.
+    intros i Hi. unfold ck_collect.
+    replace (w * S + j + 1) with (w * S + (j + 1)) by lia. rewrite ck_mod_in_window by lia.
+    destruct (Nat.eqb_spec i (j + 1)) as [->|NE'].
+    + rewrite Fd. f_equal. f_equal. f_equal. rewrite ck_pow_add. reflexivity.
+    + apply I4. lia.
+Qed.
+
+(** a whole window: S iterations from a save step append one checkpoint and the rows of the window *)
+Lemma ck_window_full w st f0 : ck_ti st = w * S -> ck_fld st = ck_pow (w * S) f0 -> ck_sp st = 0 ->
+  let st' := ck_steps S st in
+  ck_lines st' = ck_lines st ++ ck_window f0 w /\ ck_sp st' = 0 /\
+  ck_ti st' = w * S + S /\ ck_fld st' = ck_pow (w * S + S) f0.
+Proof.
+  intros Hti Hf Hsp. cbv zeta.
+  assert (E : ck_steps S st = ck_iter (ck_steps (S - 1) st)) by (rewrite <- ck_steps_succ; f_equal; lia).
+  rewrite E. clear E.
+  destruct (ck_window_prefix w st (S - 1) Hti ltac:(lia)) as [I1 [I2 [I3 I4]]].
+  pose proof (ck_steps_ti (S - 1) st) as T. pose proof (ck_steps_fld (S - 1) st) as Fd. rewrite Hti in T.
+  rewrite ck_iter_ti, ck_iter_fld, T, Fd, Hf.
+  unfold ck_iter. rewrite T, ck_mod_in_window, Nat.eqb_refl by lia.
+  cbn [ck_lines ck_sp]. repeat split; try lia.
+  - rewrite I2, I3, Hsp. f_equal.
+    replace (Nat.min S (w * S + (S - 1) + 1)) with S by lia.
+    unfold ck_print. rewrite Nat.sub_0_r. unfold ck_window.
+    assert (Hseq : seq 0 S = 0 :: seq 1 (S - 1)).
+    { destruct S as [|s]; [lia|]. cbn [seq]. rewrite Nat.sub_succ, Nat.sub_0_r. reflexivity. }
+    assert (HM : (w * S + (S - 1) + 1) mod S = 0).
+    { replace (w * S + (S - 1) + 1) with (0 + (w + 1) * S) by lia. rewrite Nat.mod_add by lia. apply Nat.mod_0_l. lia. }
+    rewrite Hseq. cbn [map]. f_equal.
+    + unfold ck_collect. rewrite HM. cbn [Nat.eqb]. unfold ck_L. rewrite Fd, Hf. f_equal.
+      apply f_equal2; [lia|]. f_equal.
+      rewrite <- ck_pow_succ, <- ck_pow_add. f_equal. lia.
+    + apply map_ext_in. intros i Hi. apply in_seq in Hi. unfold ck_collect. rewrite HM.
+      destruct (Nat.eqb_spec i 0) as [->|_]; [lia|].
+      rewrite I4 by lia. unfold ck_L. rewrite Hf, <- ck_pow_add. reflexivity.
+  - rewrite <- ck_pow_succ, <- ck_pow_add. f_equal. lia.
+Qed.
+
+Theorem ck_fresh_rows_aligned q f0 :
+  let st := ck_steps (q * S) (ck_fresh f0) in
+  ck_lines st = ck_rows_spec f0 q /\ ck_sp st = 0 /\ ck_ti st = q * S /\ ck_fld st = ck_pow (q * S) f0.
+Proof.
+  induction q as [|q IH]; cbv zeta.
+  - cbn [Nat.mul ck_steps ck_fresh ck_lines ck_sp ck_ti ck_fld ck_pow]. unfold ck_rows_spec. cbn [seq flat_map].
+    repeat split. unfold ck_collect, ck_L. rewrite Nat.mod_0_l by lia. reflexivity.
+  - destruct IH as [I1 [I2 [I3 I4]]].
+    replace (Datatypes.S q * S) with (q * S + S) by lia. rewrite ck_steps_add.
+    destruct (ck_window_full q _ f0 I3 I4 I2) as [W1 [W2 [W3 W4]]].
+    repeat split; try assumption.
+    rewrite W1, I1. unfold ck_rows_spec. rewrite seq_S, flat_map_app. cbn [flat_map Nat.add].
+    rewrite app_nil_r. reflexivity.
+Qed.
+
+(** the rows of an uninterrupted run ending on a save step (T = q * saveStep) *)
+Theorem ck_run_rows_aligned tN orc f0 q : ck_count tN orc = q * S ->
+  ck_lines (ck_run tN orc (ck_fresh f0)) = ck_rows_spec f0 q.
+Proof.
+  intros Hc. rewrite ck_run_unfold. replace (ck_ti (ck_fresh f0)) with 0 by reflexivity.
+  rewrite Nat.sub_0_r, Hc. destruct (ck_fresh_rows_aligned q f0) as [I1 [I2 [I3 I4]]].
+  unfold ck_final. rewrite I3, Nat.mod_mul by lia. cbn [Nat.eqb]. exact I1.
+Qed.
+
+(** ... which is every time 0..T exactly once *)
+Lemma ck_map_shift (g : nat -> ck_line) a n : forall b, map (fun i => g (a + i)) (seq b n) = map g (seq (a + b) n).
+Proof.
+  induction n as [|n IH]; intros b; cbn [seq map]; [reflexivity|].
+  f_equal. rewrite IH. replace (a + Datatypes.S b) with (Datatypes.S (a + b)) by lia. reflexivity.
+Qed.
+
+Lemma ck_window_perm f0 w : Permutation (ck_window f0 w) (map (ck_L f0) (seq (w * S + 1) S)).
+Proof.
+  unfold ck_window. rewrite ck_map_shift.
+  assert (E : seq (w * S + 1) S = seq (w * S + 1) (S - 1) ++ [w * S + S]).
+  { replace S with (Datatypes.S (S - 1)) at 2 by lia. rewrite seq_S. f_equal. f_equal. lia. }
+  rewrite E, map_app. cbn [map]. apply Permutation_cons_append.
+Qed.
+
+Theorem ck_rows_spec_perm f0 q : Permutation (ck_rows_spec f0 q) (map (ck_L f0) (seq 0 (q * S + 1))).
+Proof.
+  unfold ck_rows_spec. replace (q * S + 1) with (Datatypes.S (q * S)) by lia. cbn [seq map].
+  apply perm_skip. induction q as [|q IH]; [constructor|].
+  rewrite seq_S, flat_map_app. cbn [flat_map Nat.add]. rewrite app_nil_r.
+  replace (Datatypes.S q * S) with (q * S + S) by lia. rewrite seq_app, map_app.
+  apply Permutation_app; [exact IH|]. replace (1 + q * S) with (q * S + 1) by lia. apply ck_window_perm.
 Qed.
 
 End Driver.
